@@ -134,7 +134,7 @@ ENTRY = {'coq_dir': 'C19',
                'C19_ex_unbounded_without_limit). TTL of a record is re-based on Instant::now() by the encoder, so round trips use records without '
                'expiry. The allocation constants are measurements. NOT COVERED (class X of the inventory, 16 sites): the str0m side of WebRTC (first '
                'datagram / STUN parse in on_socket_input, rtc.handle_input, WebRTC substream read buffer), url::Url::parse of a dialed /ws multiaddr '
-               '(multiaddr_into_url), the rustls handshake of wss:// and the whole QUIC packet layer (quinn). Tested only (opaque, class H, 17 '
+               '(multiaddr_into_url), the rustls handshake of wss:// and the whole QUIC packet layer (quinn). Tested only (opaque, class H, 19 '
                'sites): yamux connection, TLS certificate parser, ed25519 point / signature checks, tungstenite HTTP upgrade request / response '
                'parsers, simple-dns packet parser, snow. Copy of production logic in a hook: VerifMdns::on_datagram transcribes the 8-line dispatch '
                'of Mdns::start (parse_packet -> has_flags(RESPONSE) -> on_inbound_response + discovered filter | on_inbound_request); the parsers '
